@@ -474,4 +474,171 @@ theorem createLinks_spec (ts : List Tok) :
       · intro i j k l hij hkl hlt hik hkj
         exact (hinv.nest i j ((hget i _).1 hij).2 hlt k hik hkj).2 l ((hget k _).1 hkl).2
 
+/-! ### completeness: a balanced token list is accepted -/
+
+/-- the bracket tokens of the list form a well-bracketed word (other tokens are ignored) -/
+inductive Balanced : List Tok → Prop
+  | nil : Balanced []
+  | plain (t : Tok) (w : List Tok) : ¬ isBr (firstChar t) → Balanced w → Balanced (t :: w)
+  | wrap (o c : Tok) (k : BK) (u w : List Tok) : firstChar o = openOf k → firstChar c = closeOf k →
+      Balanced u → Balanced w → Balanced (o :: (u ++ c :: w))
+
+theorem loop_append : ∀ (a b : List Tok) (st : LState) (i : Nat),
+    loop st i (a ++ b) = match loop st i a with
+                         | .error e => .error e
+                         | .ok st' => loop st' (i + a.length) b := by
+  intro a
+  induction a with
+  | nil => intro b st i; simp [loop]
+  | cons t r ih =>
+    intro b st i
+    simp only [List.cons_append, loop]
+    cases stepTok st i t with
+    | error e => rfl
+    | ok st1 =>
+      simp only
+      rw [ih]
+      simp [Nat.add_assoc, Nat.add_comm 1 r.length]
+
+theorem loop_balanced {w : List Tok} (hw : Balanced w) : ∀ (st : LState) (i : Nat),
+    ∃ st', loop st i w = .ok st' ∧ st'.type = st.type ∧ st'.links = st.links := by
+  induction hw with
+  | nil => intro st i; exact ⟨st, rfl, rfl, rfl⟩
+  | plain t w ht _ ih =>
+    intro st i
+    simp only [loop, stepTok_plain st i t ht]
+    obtain ⟨st', h1, h2, h3⟩ := ih (clr st i) (i + 1)
+    exact ⟨st', h1, h2, h3⟩
+  | wrap o c k u w ho hc _ _ ihu ihw =>
+    intro st i
+    simp only [loop, stepTok_open st i o k ho]
+    rw [loop_append]
+    obtain ⟨st2, h1, h2, h3⟩ := ihu (push (clr st i) k i (openOf k)) (i + 1)
+    rw [h1]
+    simp only [loop, stepTok_close st2 _ c k hc]
+    have hl : (clr st2 (i + 1 + u.length)).links k = i :: st.links k := by
+      simp [clr, h3, push, updStack_apply]
+    have ht : (clr st2 (i + 1 + u.length)).type = (i, openOf k) :: st.type := by
+      simp [clr, h2, push]
+    unfold pop
+    rw [hl, ht]
+    simp only [ne_eq, not_true_eq_false, if_false]
+    obtain ⟨st', g1, g2, g3⟩ := ihw
+      { type := st.type, links := updStack (clr st2 (i + 1 + u.length)).links k (st.links k),
+        link := updLink (updLink (clr st2 (i + 1 + u.length)).link i (some (i + 1 + u.length))) (i + 1 + u.length) (some i) }
+      (i + 1 + u.length + 1)
+    refine ⟨st', g1, g2, ?_⟩
+    rw [g3]
+    funext k'
+    simp only [updStack_apply, clr, h3, push]
+    split
+    · rename_i hk; rw [hk]
+    · simp
+
+theorem createLinks_balanced (ts : List Tok) (h : Balanced ts) : ∃ L, createLinks ts = .ok L := by
+  obtain ⟨st', h1, h2, h3⟩ := loop_balanced h LState.init 0
+  unfold createLinks
+  rw [h1]
+  simp only
+  have : finish st' = .ok st' := by
+    unfold finish
+    simp [h3, LState.init]
+  rw [this]
+  exact ⟨_, rfl⟩
+
+/-! ### soundness of acceptance: an accepted token list is balanced -/
+
+theorem Balanced.append {a b : List Tok} (ha : Balanced a) (hb : Balanced b) : Balanced (a ++ b) := by
+  induction ha with
+  | nil => exact hb
+  | plain t w ht _ ih => exact .plain t _ ht ih
+  | wrap o c k u w ho hc hu _ _ ihw =>
+    have : o :: (u ++ c :: w) ++ b = o :: (u ++ c :: (w ++ b)) := by simp
+    rw [this]
+    exact .wrap o c k u _ ho hc hu ihw
+
+/-- the processed prefix is `B0 o1 B1 o2 B2 … om Bm` with every `Bi` balanced and `o1 … om` the stacked openers -/
+inductive Dec : List Tok → List (Nat × Char) → Prop
+  | base {pre : List Tok} : Balanced pre → Dec pre []
+  | push {p1 : List Tok} {o : Tok} {B : List Tok} {j : Nat} {c : Char} {rest : List (Nat × Char)} :
+      Dec p1 rest → firstChar o = c → Balanced B → Dec (p1 ++ o :: B) ((j, c) :: rest)
+
+theorem Dec.extend {pre : List Tok} {ty : List (Nat × Char)} (h : Dec pre ty) {W : List Tok} (hW : Balanced W) : Dec (pre ++ W) ty := by
+  cases h with
+  | base hb => exact .base (hb.append hW)
+  | push hd hc hB =>
+    rename_i p1 o B j c rest
+    have : p1 ++ o :: B ++ W = p1 ++ o :: (B ++ W) := by simp
+    rw [this]
+    exact .push hd hc (hB.append hW)
+
+theorem stepTok_dec {pre : List Tok} {st st' : LState} {i : Nat} {t : Tok} (hd : Dec pre st.type)
+    (hs : stepTok st i t = .ok st') : Dec (pre ++ [t]) st'.type := by
+  by_cases hb : isBr (firstChar t)
+  · obtain ⟨k, hk | hk⟩ := hb
+    · rw [stepTok_open st i t k hk] at hs
+      cases hs
+      simp only [Links.push, clr]
+      exact .push hd hk .nil
+    · rw [stepTok_close st i t k hk] at hs
+      unfold Links.pop at hs
+      split at hs
+      · cases hs
+      · split at hs
+        · cases hs
+        · rename_i o lrest _ ti tc trest hty
+          split at hs
+          · cases hs
+          · rename_i htc
+            have htc : tc = openOf k := by simpa using htc
+            cases hs
+            simp only
+            have hty' : st.type = (ti, tc) :: trest := by simpa [clr] using hty
+            rw [hty'] at hd
+            cases hd with
+            | push hd1 hc1 hB =>
+              rename_i p1 o1 B
+              have : p1 ++ o1 :: B ++ [t] = p1 ++ (o1 :: (B ++ t :: [])) := by simp
+              rw [this]
+              exact hd1.extend (.wrap o1 t k B [] (hc1.trans htc) hk hB .nil)
+  · rw [stepTok_plain st i t hb] at hs
+    cases hs
+    simp only [clr]
+    exact hd.extend (.plain t [] hb .nil)
+
+theorem loop_dec : ∀ (rest pre : List Tok) (st st' : LState) (i : Nat), Dec pre st.type →
+    loop st i rest = .ok st' → Dec (pre ++ rest) st'.type := by
+  intro rest
+  induction rest with
+  | nil => intro pre st st' i hd hl; simp [loop] at hl; subst hl; simpa using hd
+  | cons t r ih =>
+    intro pre st st' i hd hl
+    simp only [loop] at hl
+    cases hs : stepTok st i t with
+    | error e => rw [hs] at hl; cases hl
+    | ok st1 =>
+      rw [hs] at hl
+      have := ih (pre ++ [t]) st1 st' (i + 1) (stepTok_dec hd hs) hl
+      simpa using this
+
+theorem createLinks_ok_balanced (ts : List Tok) (L : List (Option Nat)) (h : createLinks ts = .ok L) : Balanced ts := by
+  have hfc : ∀ j (hj : j < ts.length), chr ts (0 + j) = firstChar ts[j] := by
+    intro j hj; simp [chr, List.getD_eq_getElem?_getD, hj]
+  have hl := loop_inv (fc := chr ts) ts 0 LState.init (LInv.init _) hfc
+  unfold createLinks at h
+  cases hloop : loop LState.init 0 ts with
+  | error e => rw [hloop] at h; cases h
+  | ok st =>
+    rw [hloop] at h
+    simp only at h
+    have hinv : LInv (chr ts) ts.length st := by simpa using hl.2 st hloop
+    cases hfin : finish st with
+    | error e => rw [hfin] at h; cases h
+    | ok st' =>
+      obtain ⟨_, hty⟩ := finish_ok hinv hfin
+      have hd := loop_dec ts [] LState.init st 0 (.base .nil) hloop
+      rw [hty] at hd
+      cases hd with
+      | base hb => simpa using hb
+
 end Cppcheck.Links
